@@ -142,6 +142,9 @@ impl Number {
         if !exp.dimless() {
             return Err("Exponent must be dimensionless".to_string());
         }
+        if exp.value.is_nan() {
+            return Err("Exponent is not a number".to_string());
+        }
         if exp.value.abs() >= Numeric::from(1 << 31) {
             return Err("Exponent is too large".to_string());
         }
@@ -175,7 +178,7 @@ impl Number {
         if !exp.dimless() {
             return Err("Right-hand to << must be dimensionless".to_string());
         }
-        if exp.value.abs() >= Numeric::from(1 << 31) {
+        if exp.value.is_nan() || exp.value.abs() >= Numeric::from(1 << 31) {
             return Err("Right-hand to << is too large".to_string());
         }
         let (num, den) = exp.value.to_rational();
@@ -201,7 +204,7 @@ impl Number {
         if !exp.dimless() {
             return Err("Right-hand to >> must be dimensionless".to_string());
         }
-        if exp.value.abs() >= Numeric::from(1 << 31) {
+        if exp.value.is_nan() || exp.value.abs() >= Numeric::from(1 << 31) {
             return Err("Right-hand to >> is too large".to_string());
         }
         let (num, den) = exp.value.to_rational();
